@@ -181,11 +181,14 @@ End Codec.
 (* the broker's part for a compressed wrapper (magic 1): the wrapper's offset becomes the
    absolute offset of the last inner message, optionally LogAppendTime; CRC recomputed *)
 Definition lstamp (offset : Z) (lat : option Z) (l : bytes) : bytes :=
-  let magic := signed_be (slice 16 17 l) in
-  let attrs := signed_be (slice 17 18 l) in
-  let attrs' := Z.lor attrs (match lat with Some _ => TS_TYPE_MASK | None => 0 end) in
-  let tail :=
-    if magic =? 0 then be 1 magic ++ be 1 attrs' ++ skipn 18 l
-    else be 1 magic ++ be 1 attrs'
-         ++ (match lat with Some t => be 8 t | None => slice 18 26 l end) ++ skipn 26 l in
-  be 8 offset ++ be 4 (blen tail + 4) ++ be 4 (crc32 tail) ++ tail.
+  match parse_msg Cy 0 l with
+  | None => l
+  | Some (m, _) =>
+      let attrs' := Z.lor (g_attrs m) (match lat with Some _ => TS_TYPE_MASK | None => 0 end) in
+      let ts := match lat, g_ts m with
+                | Some t, _ => t
+                | None, Some t => t
+                | None, None => -1
+                end in
+      encode_msg (g_magic m) offset ts (g_key m) (g_value m) attrs'
+  end.
